@@ -365,7 +365,8 @@ def run_playback(scratch, h, tests_src, logdir):
     cmd = ["cargo", "kani", "playback", "-Z", "concrete-playback", "-p", h.crate, "--", "kani_concrete_playback_" + h.name + "_"]
     with open(plog, "w") as fh:
         try:
-            subprocess.run(cmd, cwd=scratch.src, env=ENV, stdout=fh, stderr=subprocess.STDOUT, timeout=1800)
+            # kv_replay: harnesses that rely on Kani stubs switch to the real objects / exact oracles
+            subprocess.run(cmd, cwd=scratch.src, env=dict(ENV, RUSTFLAGS="--cfg kv_replay"), stdout=fh, stderr=subprocess.STDOUT, timeout=1800)
         except subprocess.TimeoutExpired:
             pass
     txt = open(plog, errors="replace").read()
